@@ -117,6 +117,27 @@ Example T19_parse_example :
   parse_userinfo (b ":nouser") = None /\ parse_hpu (b "user:pass") = None.
 Proof. exact (conj eq_refl (conj eq_refl (conj eq_refl eq_refl))). Qed.
 
+(* Which records may carry headers depends on the mode a module logs in.  For ANY sequence of --log-http
+   occurrences: a module that some entry names ends up in the mode of its first naming, whatever unnamed
+   defaults are given before or after it, in the same or in other occurrences; a module nobody names takes the
+   last unnamed entry. *)
+Theorem T19_named_log_mode_holds : forall m x d calls cur,
+  calls <> [] ->
+  (find_named m (concat calls) = Some x -> run_sets cur m [] calls = x) /\
+  (find_named m (concat calls) = None -> last_default (concat calls) = Some d -> run_sets cur m [] calls = d).
+Proof.
+  exact (fun m x d calls cur Hne =>
+    conj (named_mode_holds ob_httplog_named_always_marks_changed m x calls [] cur Hne)
+         (unnamed_gets_last_default ob_httplog_named_always_marks_changed m d calls [] cur Hne)).
+Qed.
+Print Assumptions T19_named_log_mode_holds.
+
+Example T19_log_mode_example :
+  run_sets (b "errors") (b "proxy") [] [[(b "proxy", b "url")]; [([], b "headers")]] = b "url" /\
+  run_sets (b "errors") (b "api") [] [[(b "proxy", b "url")]; [([], b "headers")]] = b "headers" /\
+  run_sets (b "errors") (b "proxy") [] [[([], b "body"); (b "proxy", b "errors")]; [(b "proxy", b "none")]] = b "errors".
+Proof. exact (conj eq_refl (conj eq_refl eq_refl)). Qed.
+
 (* A flag value rendered without its redact function depends on the password. *)
 Theorem T19_unredacted_refuted :
   exists p1 p2, render_scalar R_NONE (VUserinfo (Some ([117], Some p1))) <> render_scalar R_NONE (VUserinfo (Some ([117], Some p2))).
